@@ -23,6 +23,7 @@ package control // import "pault.ag/go/debian/control"
 import (
 	"bufio"
 	"bytes"
+	"encoding/base64"
 	"fmt"
 	"io"
 	"io/ioutil"
@@ -325,7 +326,7 @@ func (p *ParagraphReader) decodeClearsig(keyring *openpgp.EntityList) error {
 		return err
 	}
 
-	block, _ := clearsign.Decode(signedData)
+	block, rest := clearsign.Decode(signedData)
 	/* We're only interested in the first block. This may change in the
 	 * future, in which case, we should likely set reader back to
 	 * the remainder, and return that out to put through another
@@ -341,6 +342,12 @@ func (p *ParagraphReader) decodeClearsig(keyring *openpgp.EntityList) error {
 		 * keyring. So, we'll just pass on through. */
 		p.reader = bufio.NewReader(bytes.NewBuffer(block.Bytes))
 		return nil
+	}
+
+	/* The armor reader skips a checksum line it cannot decode, and then
+	 * compares no checksum at all: such a line is damage like any other. */
+	if !armorChecksumLineOK(signedData[:len(signedData)-len(rest)]) {
+		return fmt.Errorf("Invalid clearsigned input: malformed armor checksum")
 	}
 
 	/* Read the whole armored signature first: the armor's checksum is only
@@ -367,6 +374,33 @@ func (p *ParagraphReader) decodeClearsig(keyring *openpgp.EntityList) error {
 	p.reader = bufio.NewReader(bytes.NewBuffer(block.Bytes))
 
 	return nil
+}
+
+// The armor reader takes a line of five bytes that starts with '=' for the
+// checksum line; where the four characters behind the '=' are base64 for
+// fewer than three bytes it goes on as if the line were not there. Report
+// such a line in the body of the signature armor.
+func armorChecksumLineOK(armored []byte) bool {
+	begin := bytes.LastIndex(armored, []byte("-----BEGIN PGP SIGNATURE-----"))
+	if begin < 0 {
+		return true
+	}
+	body := false
+	for _, line := range bytes.Split(armored[begin:], []byte("\n")) {
+		line = bytes.TrimSuffix(line, []byte("\r"))
+		if !body {
+			/* The armor headers end at the first empty line. */
+			body = len(line) == 0
+			continue
+		}
+		if len(line) == 5 && line[0] == '=' {
+			var sum [3]byte
+			if n, err := base64.StdEncoding.Decode(sum[:], line[1:]); err != nil || n != 3 {
+				return false
+			}
+		}
+	}
+	return true
 }
 
 // }}}
